@@ -71,7 +71,8 @@ def run_suite(ctx, rel, exe, suite, oracle, corr, extra=(), label=None, scale=No
         # one report per kind and defect signature (panic site if any, else the failing configuration);
         # the sweep is ordered by size, so the first one is the smallest input
         sig = re.search(r"panic (\S+:\d+)", text)
-        key = (kind, sig.group(1) if sig else run)
+        lead = re.match(r"[A-Za-z:_ ,'/<>-]{12,}", text)     # the message up to its first number / parenthesis
+        key = (kind, sig.group(1) if sig else (lead.group(0).strip() if lead else run))
         if key[1] is not None and key in seen:
             continue
         seen.add(key)
